@@ -110,7 +110,7 @@ def gen_sgrid(rng, kind=None, words=None, space=None):
 
 def generate(rng, tier):
     cases = []
-    n = 300 if tier == "quick" else 3000
+    n = 450 if tier == "quick" else 3000
     for i in range(n):
         c = gen_comodo(rng) if i % 2 else gen_sgrid(rng)
         r = rng.random()
